@@ -1327,7 +1327,23 @@ func callBehind(v ssa.Value, pkg, name string) *ssa.Call {
 // dependsOnFV: the value, resolved to the root frame, is the source or computed from it.
 func dependsOnFV(x an.FV, src ssa.Value) bool {
 	rv := x.Resolve(nil)
-	return (rv.F == nil || rv.F.Parent == nil) && dependsOn(rv.V, src)
+	if (rv.F == nil || rv.F.Parent == nil) && dependsOn(rv.V, src) {
+		return true
+	}
+	// computed inside a helper frame (merged from two assignments, passed through a string function): from a parameter
+	// of the helper whose argument, seen from the caller, derives from the source
+	for f := rv.F; f != nil && f.Parent != nil && f.Fn != nil; f = f.Parent {
+		for _, hp := range f.Fn.Params {
+			if dependsOn(rv.V, hp) {
+				up := (an.FV{V: hp, F: f}).Resolve(nil)
+				if (up.F == nil || up.F.Parent == nil) && dependsOn(up.V, src) {
+					return true
+				}
+			}
+		}
+		break
+	}
+	return false
 }
 
 // dependsOn: v is computed (within one function) from src.
